@@ -79,9 +79,24 @@ def run(ctx):
         if kind in ('sxg', 'hdr', 'cert', 'bundle'):
             for k in range(0, n + 1, 3):
                 ops.append(f'fault.retry {kind} {k} {"short" if k % 2 else "error"} {a}')
+    # a payload past 1 MiB (written in one piece or in several): fault positions sampled across it and exhaustively near its end
+    for ver in ('b1', 'b2', 'b3'):
+        e = list(ex(ver, b'https://example.com/', b'GET', [], 200, [(b'Content-Type', [b'text/html'])], b'label;sig=*AAAA*', b''))
+        for n_ in (2**20 + 1, 2**20 + 70000):
+            e[7] = f'rep:cd:{n_}'
+            a = exs(e)
+            total = ctx.go([f'faultlen sxg {a}'])[0]
+            if not (total and total.startswith('ok ')): continue
+            T_ = int(total.split(' ')[1])
+            ks = sorted(set(list(range(0, T_, 65521)) + list(range(T_ - 40, T_ + 1)) + [T_ - n_ - 1, T_ - n_, T_ - n_ + 1, T_ - n_ + 2**20 - 1, T_ - n_ + 2**20, T_ - n_ + 2**20 + 1]))
+            for k_ in ks:
+                if 0 <= k_ <= T_:
+                    ops.append(f'fault sxg {k_} {"short" if k_ % 2 else "error"} {a}')
     ctx.stats = dict(artifacts=cover)
     ctx.both(ops)
     # byte accounting of the CountingWriter under faults delivered as short writes / plain errors (compared with Model/CountingWriter)
     import c04
     ctx.both([o for o in c04.cw_ops(rng, 100 if not thorough else 2000) if o.split(' ')[1] in ('short', 'hard')])
+    # the destination is itself a CountingWriter that has already counted something: the count returned is this bundle's alone
+    ctx.both([f'bundle.write.cw {a}' for kind, a in arts if kind == 'bundle'])
 
